@@ -13,6 +13,7 @@ Shape of every pair `T`:
   corresponding repair — from a concrete witness, so each repair is necessary.
 -/
 import VizierModel.Lemmas.WireStudy
+import VizierModel.Lemmas.WireEndpoint
 
 namespace VizierModel.C09
 open VizierModel.Wire VizierModel
@@ -276,6 +277,52 @@ theorem c09_studyConfig_metric_order_counterexample (cfg : Cfg) : ¬ StudyConfig
   have := congrArg Study.metrics (hrt metricOrderWitness hok)
   obtain ⟨a, b, c, d⟩ := cfg
   cases a <;> cases b <;> cases c <;> cases d <;> (revert this; decide +kernel)
+
+/-! ### `StudyConfig.pythia_endpoint` (a view of the metadata entry `service / PYTHIA_ENDPOINT`) -/
+
+/-- FULL STATEMENT (second conversion) for a variant of the endpoint write of `StudyConfig.to_proto` -/
+def StudyConfigEndpointIdempotent (merged : Bool) : Prop :=
+  ∀ s : StudyE, StudyEOk Cfg.fixed s →
+    (studyEToProto Cfg.fixed merged (studyEFromProto Cfg.fixed (studyEToProto Cfg.fixed merged s))).metadata
+      = (studyEToProto Cfg.fixed merged s).metadata
+
+/-- a study config WITH its endpoint comes back as what a reader sees (metrics listed in name order) -/
+theorem c09_studyConfig_endpoint_roundtrip (cfg : Cfg) (s : StudyE) (h : StudyEOk cfg s) :
+    studyEFromProto cfg (studyEToProto cfg true s) = studyENorm s := studyE_roundtrip cfg s h
+
+/-- the configured endpoint itself comes back, whatever else the metadata holds -/
+theorem c09_studyConfig_endpoint_kept (cfg : Cfg) (s : StudyE) (h : StudyEOk cfg s) (v : MdVal) (hv : s.endpoint = some v) :
+    (studyEFromProto cfg (studyEToProto cfg true s)).endpoint = some (mdValNorm v) := by
+  rw [studyE_roundtrip cfg s h]; exact studyE_endpoint_kept s v h.base.metadata hv
+
+/-- and a second conversion yields the identical message -/
+theorem c09_studyConfig_endpoint_idempotent (s : StudyE) (h : StudyEOk Cfg.fixed s) :
+    studyEToProto Cfg.fixed true (studyEFromProto Cfg.fixed (studyEToProto Cfg.fixed true s))
+      = studyEToProto Cfg.fixed true s := by
+  rw [studyE_roundtrip Cfg.fixed s h, studyEToProto_studyENorm Cfg.fixed s h.base.metadata]
+
+def endpointOrderWitness : StudyE :=
+  { base := { space := [], metrics := [], metadata := [(endpointNs, [("a", .str "1")]), ([['o']], [("b", .str "2")])],
+              algorithm := "", noise := .unspecified, autoStop := false, cachedStopping := false },
+    endpoint := some (.str "host:1") }
+
+/-- the write order of the pinned commit (flatten the metadata, THEN assign the endpoint into the flat list):
+    with another entry in the `service` namespace and a later namespace the endpoint entry is appended at the
+    end by the first conversion and sits inside its namespace after the second — not the identical message -/
+theorem c09_studyConfig_endpoint_order_counterexample : ¬ StudyConfigEndpointIdempotent false := by
+  intro h
+  have hok : StudyEOk Cfg.fixed endpointOrderWitness :=
+    { base := { space := ⟨by decide, by intro p hp; cases hp⟩
+                metrics := by intro m hm; cases hm
+                metadata := ⟨by decide, (by decide), (by decide)⟩ }
+      sorted := List.Pairwise.nil }
+  exact absurd (h endpointOrderWitness hok) (by decide +kernel)
+
+example : StudyEOk Cfg.fixed endpointOrderWitness ∧ endpointOrderWitness.endpoint ≠ none :=
+  ⟨{ base := { space := ⟨by decide, by intro p hp; cases hp⟩
+               metrics := by intro m hm; cases hm
+               metadata := ⟨by decide, (by decide), (by decide)⟩ }
+     sorted := List.Pairwise.nil }, by decide⟩
 
 /-! ## Pythia requests and decisions -/
 
